@@ -41,7 +41,7 @@ CLAIMED = {
              "unbounded length) to forward signals in place and exactly the travelers their documented meaning keeps, in order, to close "
              "their output once, and for limit/skip/range to emit the closed-form number of rows (min(N,n), max(0,N-n), range arithmetic); "
              "traveler copy-on-step (AddCurrent, AddMark) is proved pointwise (marks, path, current, signal). Lookup/adjacency steps, "
-             "as(), select(marks) and path() are proved element-wise maps, unwind is proved to emit n rows for a list of n > 0 elements and one row otherwise; render/fields/distinct and the pipeline wiring are not under contract. The lookup steps V(), V(ids), E(), E(ids) are proved to forward signals in place and to emit, per input traveler and in order, one traveler per listed element resp. per requested id the graph has, carrying that id (the graph's answers are named by an assumed GraphInterface contract); both halves of out/in (from vertex or edge), inE and outE are proved to send one request per traveler (the current id resp. the edge endpoint; none for signals and null rows) and to emit one output per answer of the graph, the requesting traveler moved to the returned element. both()/bothE() is proved to forward signals at once, to hand every other traveler in order to the in- and the out-direction step of the right kind, and to emit everything the first and then everything the second produced. Which answers a driver gives and the index lookup step are not decided. Typing: StatementProcessor is proved against the "
+             "as(), select(marks) and path() are proved element-wise maps, unwind is proved to emit n rows for a list of n > 0 elements and one row otherwise; render/fields/distinct and the pipeline wiring are not under contract. The lookup steps V(), V(ids), E(), E(ids) are proved to forward signals in place and to emit, per input traveler and in order, one traveler per listed element resp. per requested id the graph has, carrying that id (the graph's answers are named by an assumed GraphInterface contract); both halves of out/in (from vertex or edge), inE and outE are proved to send one request per traveler (the current id resp. the edge endpoint; none for signals and null rows) and to emit one output per answer of the graph, the requesting traveler moved to the returned element. both()/bothE() is proved to forward signals at once, to hand every other traveler in order to the in- and the out-direction step of the right kind, and to emit everything the first and then everything the second produced. The index lookup step introduced by the start rewrite is proved to send one request per input traveler, label and scanned id and to emit one output per answer, moved to the found vertex's id. Which answers a driver gives is not decided. Typing: StatementProcessor is proved against the "
              "table tnext and DefaultCompiler.Compile (no optimizers, no options) to return the fold of that table over the statements or an error.",
         ref="§5 C01",
         note=TRUST + " Trusted composition principle (Kahn determinacy, DESIGN §4.3): a network of such sequential processes over FIFO channels "
@@ -90,7 +90,7 @@ CLAIMED = {
              "uncomparable values, close/send on closed channel) is proved for the index-start optimizer, the condition matcher, traveler "
              "copy-on-step operations and result conversion under the wire input model, all 30 server handlers, and the step processes has/hasLabel/"
              "hasId/hasKey/fields/render/path/unwind/distinct/as/select/set/increment, the lookup steps V/E, both halves of out/in/inE/outE, the "
-             "histogram aggregation arm and DeepCopy. Not covered: the index lookup step, jsonpath internals (trusted frames), other packages.",
+             "histogram aggregation arm and DeepCopy. Not covered: jsonpath internals (trusted frames), other packages.",
         ref="§5 C06",
         note=TRUST + " Input model wire(x) (payload of a populated oneof wrapper is non-nil) is assumed as axioms in the contracts; panics inside "
              "third-party libraries, out-of-memory and deadlock are not decided.",
